@@ -1018,7 +1018,12 @@ class TOTP:
                 raise MalformedTokenError("Token must contain only the digits 0-9")
             token = "%0*d" % (digits, token)
         else:
-            token = to_unicode(token, param="token")
+            try:
+                token = to_unicode(token, param="token")
+            except UnicodeDecodeError:
+                raise MalformedTokenError(
+                    "Token must contain only the digits 0-9"
+                ) from None
             token = _clean_re.sub("", token)
             # NOTE: str.isdigit() alone would also accept non-ASCII digits
             if not (token.isascii() and token.isdigit()):
@@ -1609,7 +1614,7 @@ class TOTP:
         # default json format is just serialization of constructor kwds.
         # XXX: just pass all this through to _from_json / constructor?
         # go ahead and mark as changed (needs re-saving) if the version is too old
-        assert cls._check_otp_type(type)
+        cls._check_otp_type(type)
         ver = kwds.pop("v", None)
         if not ver or ver < cls.min_json_version or ver > cls.json_version:
             raise cls._dict_parse_error(f"missing/unsupported version ({ver!r})")
@@ -1622,7 +1627,8 @@ class TOTP:
             # encrypted key, so if to_json() is called again, the encrypted
             # key can be re-used.
             # XXX: wallet is known at this point, could decrypt key here.
-            assert "key" not in kwds  # shouldn't be present w/ enckey
+            if "key" in kwds:  # shouldn't be present w/ enckey
+                raise cls._dict_parse_error("both 'enckey' and 'key' present")
             kwds.update(key=kwds.pop("enckey"), format="encrypted")
         elif "key" not in kwds:
             raise cls._dict_parse_error("missing 'enckey' / 'key'")
